@@ -28,8 +28,8 @@ func init() {
 	case "c32":
 		handle = verifC32
 	default:
-		fmt.Fprintln(os.Stderr, "unknown ZOEKT_VERIF_DRIVER", which)
-		os.Exit(2)
+		// not ours: another verif hook of this package may serve it
+		return
 	}
 	in := bufio.NewReaderSize(os.Stdin, 1<<20)
 	out := bufio.NewWriterSize(os.Stdout, 1<<20)
